@@ -11,7 +11,9 @@ EXPLANATION = ('Handlers are found by type: every method of SessionContext that 
                'does not merely propagate a catalog error: CREATE of a missing object registers it and does not fail; CREATE of an existing '
                'object is a no-op success under IF NOT EXISTS, deregisters-then-registers under OR REPLACE, and otherwise (neither, or both) '
                'fails without touching the catalog; DROP of an existing object succeeds; DROP of a missing object succeeds silently under '
-               'IF EXISTS and fails otherwise. A path that does not test a flag must be right for both values of it. Name resolution, the '
+               'IF EXISTS and fails otherwise. A path that does not test a flag must be right for both values of it. (b) replace atomicity: on every path of a '
+               'CREATE handler, once the existing object has been deregistered no fallible step (anything but std plumbing) runs before the new object is '
+               'registered, so a failing CREATE OR REPLACE cannot drop the old object. Name resolution, the '
                'contents of views and the information schema are not decided.')
 EXHAUSTIVE = True
 ASSUMPTIONS = ['existence probes and their polarity are the frozen table PROBES (confirmed by reading): SessionContext::table Ok=exists, '
@@ -128,6 +130,12 @@ def probe_kind(name):
     return None
 
 
+def plumbing(name):
+    """calls that cannot make the statement fail on their own: `?` machinery, error conversion/formatting, clones, drops, accessors of std types"""
+    return (name.startswith(('core::', 'alloc::', 'std::', '<core::', '<alloc::', '<std::', 'log::')) or ' as core::' in name or ' as alloc::' in name
+            or name.endswith(('::get_back_trace', '::clone', '::drop')))
+
+
 def classify_ret(v):
     r = strip(v)
     if isinstance(r, A) and r.name == 'Ok':
@@ -170,6 +178,7 @@ def summarise(facts, d, pty, owner, kind):
             continue
         flags, other = {}, {}
         effects = []
+        since_remove = None     # substantive calls made after the old object was deregistered and before the new one is registered
         obs = {}            # full tag -> observed value; a value tested twice (tuple matches re-test their fields) must answer the same: otherwise the path is infeasible
         feasible = True
         sites = {}          # 'meth@line' -> meth, for probe calls whose resolved callee has the expected owner
@@ -179,6 +188,12 @@ def summarise(facts, d, pty, owner, kind):
                 mu = mutator(e[1])
                 if mu:
                     effects.append(mu)
+                    if mu == 'REMOVE':
+                        since_remove = []
+                    else:
+                        since_remove = None
+                elif since_remove is not None and not plumbing(e[1]) and not (e[1].endswith('::{closure#0}') and mutator(e[1][:-len('::{closure#0}')])):
+                    since_remove.append((e[1], e[3]))
                 meth = e[1].rsplit('::', 1)[-1]
                 pkr = probe_kind(e[1])
                 if pkr:
@@ -230,7 +245,8 @@ def summarise(facts, d, pty, owner, kind):
         definite = set(m_ for m_, v in seen if v in ('exists', 'missing'))
         vals = [v for m_, v in seen if not (v == 'either' and m_ in definite)]
         exist = None if not vals else 'unknown' if 'unknown' in vals else 'missing' if 'missing' in vals else 'either' if 'either' in vals else 'exists'
-        rows.append({'flags': flags, 'other': other, 'exist': exist, 'effects': effects, 'outcome': classify_ret(o.ret), 'probes': seen})
+        rows.append({'flags': flags, 'other': other, 'exist': exist, 'effects': effects, 'outcome': classify_ret(o.ret), 'probes': seen,
+                     'gap': since_remove if (since_remove and effects and effects[-1] == 'REMOVE') else None})
     return rows, bools
 
 
@@ -327,6 +343,19 @@ def check_handlers(ctx, facts, ddl=DDL, owner=OWNER, rule='ddl-decision-table', 
                 ctx.fail(rule, d, ctx.loc(rec), 'a path decides the statement (outcome %s, effects %s) without a recognised existence probe' % (r['outcome'], r['effects']),
                          key='%s|%s|no-probe' % (rule, d))
                 continue
+            # (b) replace atomicity: once the old object has been deregistered the handler must not be able to fail before it registers the new one
+            if kind == 'create':
+                gaps = [r for r in rows if r['gap'] and r['outcome'] in ('prop-err', 'local-err') and not any(v == 1 for v in r['other'].values())]
+                inst_b = d.rsplit('::', 1)[-1]
+                if any('REMOVE' in r['effects'] for r in rows):
+                    if gaps:
+                        g = gaps[0]['gap']
+                        bad += 1
+                        ctx.fail(rule + '-replace-atomic', inst_b, ctx.loc(rec, g[-1][1]), 'after the existing object has been deregistered a fallible step (%s) can fail '
+                                 'before the new object is registered: a failing CREATE OR REPLACE drops the old object' % ', '.join(sorted(set(n.rsplit('::', 1)[-1] for n, _ in g))),
+                                 key='%s-replace-atomic|%s' % (rule, inst_b))
+                    else:
+                        ctx.ok(rule + '-replace-atomic', inst_b, sample={'handler': inst_b, 'replace_paths': sum(1 for r in rows if 'REMOVE' in r['effects'])})
             # every cell of the model's domain must be reached
             dom = [(i, o, x, ex) for i in ((0, 1) if 'if_not_exists' in model else (0,)) for o in ((0, 1) if 'or_replace' in model else (0,))
                    for x in ((0, 1) if 'if_exists' in model else (0,)) for ex in ('exists', 'missing')]
@@ -371,6 +400,9 @@ def run(ctx):
     probe = common.Ctx(ctx.pid, ctx.tier, st, st, {})
     probe.known = []
     b, n2 = check_handlers(probe, st, ddl='dfscan_selftest::ddl::DdlStatement', owner='dfscan_selftest::ddl::SessionContext', rule='st', scope_out={})
-    msgs = ' '.join(v.get('message', '') + v.get('instance', '') for v in probe.violations) if hasattr(probe, 'violations') else ''
-    ctx.selftest('decision-table rule fires on a handler that replaces under IF NOT EXISTS and on a DROP IF EXISTS that fails on a missing object and on a DROP that ignores whether anything was removed; silent on the correct handler',
-                 b == 3 and n2 >= 20)
+    keys = sorted(v['key'] for v in probe.viol)
+    want = ['st-replace-atomic|create_slow', 'st|create_thing(if_not_exists=1,or_replace=0,object exists)', 'st|drop_other(if_exists=0,object missing)',
+            'st|drop_thing(if_exists=1,object missing)']
+    ctx.selftest('decision-table rule fires on a handler that replaces under IF NOT EXISTS, on a DROP IF EXISTS that fails on a missing object, on a DROP that '
+                 'ignores whether anything was removed, and replace-atomic on a handler that can fail between deregister and register; silent on the '
+                 'correct handlers (match-style, if-style with helper)', keys == want and n2 >= 24)
